@@ -15,8 +15,8 @@ from lib import tlc, build, tracev
 from lib.ctx import MachineryError
 from harness.mt import mtlib
 
-QUICK_MC = ["q_plain", "q_flush", "q_fail", "q_timeout", "nw1", "live", "reinit"]
-ALL_MC = ["plain", "bs1", "flush", "q_barrier", "fail", "spur", "timeout", "nw1", "live", "reinit"]
+QUICK_MC = ["q_plain", "q_flush", "q_fail", "q_timeout", "nw1", "live", "reinit", "reinit_fixed"]
+ALL_MC = ["plain", "bs1", "flush", "q_barrier", "fail", "spur", "timeout", "nw1", "live", "reinit", "reinit_fixed", "reinit_fixed3"]
 
 def model_check(ctx):
     names = QUICK_MC if ctx.quick else ALL_MC
@@ -26,10 +26,11 @@ def model_check(ctx):
         for n, r in ex.map(go, names):
             ctx.add_tlc("MCMtEncoder_" + n, r, exhaustive=True)
             ctx.log("MC", n, r.summary())
-            if n == "reinit" and r.violation == "NoLostWorker":
-                # the code as it is (FixLostWorker = FALSE): known defect, found by TLC after a few steps
-                ctx.violation("reinit-busy:model:NoLostWorker", "TLC: MCMtEncoder_reinit.cfg violates NoLostWorker (the transcription of "
-                              "worker_start()/threads_stop(coder, true) loses a worker that was stopped before it started)", dict(kind="tlc", cfg=n))
+            if n == "reinit":
+                # FixLostWorker = FALSE: xz 5.8.1 as released.  It must violate NoLostWorker (non-vacuity of the
+                # re-initialisation part of the model); the repaired behaviour is checked by reinit_fixed.
+                if r.violation != "NoLostWorker":
+                    raise MachineryError("MCMtEncoder_reinit.cfg (released 5.8.1 variant) no longer violates NoLostWorker: %s" % r.summary())
                 continue
             if r.violation:
                 ctx.violation("model:%s:%s" % (n, r.violation),
@@ -79,7 +80,7 @@ def run(ctx):
     wd = ctx.workdir
     inputs = [("text", coders.rand_data(rng, 150000, "text")), ("rand", coders.rand_data(rng, 90000, "rand")),
               ("empty", b""), ("small", coders.rand_data(rng, 700, "text")), ("zeros", bytes(120000))]
-    nseeds = 2 if ctx.quick else 10
+    nseeds = 3 if ctx.quick else 10
     groups = []; jobs = []
     for ii, (iname, data) in enumerate(inputs):
         path = os.path.join(wd, iname + ".in"); open(path, "wb").write(data)
@@ -98,7 +99,7 @@ def run(ctx):
                     acts.sort(key=lambda a: a[1])
                     acts = [a for i, a in enumerate(acts) if i == 0 or a[1] != acts[i - 1][1]]
                 seed = ctx.seed * 1000 + 31 * len(jobs) + k
-                endafter = rng.randint(1, 8) if (k % 4 == 3) else -1
+                endafter = rng.randint(1, 8) if (k % 3 == 2) else -1
                 p = dict(threads=nw, blocksize=bs, timeout=to, seed=seed, perturb=[0, 30, 60][k % 3],
                          slicing=1 if k else 0, endafter=endafter, actions=",".join("%s%d" % a for a in acts))
                 jobs.append((g, p, acts))
@@ -130,10 +131,16 @@ def run(ctx):
                 started = [e["w"] for e in fe[:ria[-1]] if e["e"] == "GtStart"]
                 done = [e["w"] for e in fe[:ria[-1]] if e["e"] == "WFinCoder"]
                 busy = len(started) > len(done)
+        # In such a run the schedule-dependent symptoms of the known defects (TSan reports, the lost-worker hang,
+        # progress of the old Stream) are reported under the known-finding family "reinit-busy:"; if the run raced
+        # (TSan reported something) everything it shows is attributed to that race.  Functional results of runs that
+        # did not race (round trip, boundaries, determinism, return codes, other trace rejections) are checked normally.
+        raced = busy and bool(mtlib.tsan_keys(res["stderr"]))
         pre = "reinit-busy:" if busy else ""
         _viol = ctx.violation
-        def violation(key, detail, replay_obj=None, _pre=pre):
-            return _viol(_pre + key, detail, replay_obj)
+        def violation(key, detail, replay_obj=None, _busy=busy, _raced=raced):
+            masked = _busy and (_raced or key.startswith("tsan:") or key == "lost-unstarted-worker")
+            return _viol(("reinit-busy:" if masked else "") + key, detail, replay_obj)
         for key, rep in mtlib.tsan_keys(res["stderr"]):
             violation(key, rep, rp)
         if res["hang"] and "reinit_after" in params and lost_unstarted_worker(mtlib.fold(res["events"])[1]):
@@ -163,7 +170,8 @@ def run(ctx):
                                   "after FULL_FLUSH at input offset %d the output so far (%d bytes) decodes to %d bytes (ret %s) (%s)" % (
                                       e["b"], e["c"], len(r["out"]), r["ret"], label), rp)
         rets = [e for e in evs if e["e"] == "Ret"]
-        finished = params["endafter"] < 0
+        finished = params["endafter"] < 0 or bool(rets and rets[-1]["a"] == lz.STREAM_END and rets[-1]["b"] == len(data)
+                                                 and not any(e["e"] == "FlushDone" for e in evs[-3:]))
         if finished:
             last = rets[-1]["a"] if rets else None
             if last != lz.STREAM_END:
@@ -196,7 +204,7 @@ def run(ctx):
                         violation("finish:determinism:%s" % g["inp"], "output differs from the 1-thread one-shot output (%s)" % label, rp)
         tailsz = len(out) - 12 - sum(e["b"] for e in blocks) if finished else 0
         evs2 = [e for e in evs if e["e"] != "FlushDone" and not (e["e"] == "Reinited" and e["a"] != 0)]
-        g["runs"].append(((pre + label), [{"e": "Reset", "tailsz": max(tailsz, 0)}] + evs2))
+        g["runs"].append(((("reinit-raced:" if raced else pre) + label), [{"e": "Reset", "tailsz": max(tailsz, 0)}] + evs2))
     def validate_group(g):
         if not g["runs"]:
             return g, None
@@ -205,8 +213,9 @@ def run(ctx):
         sub.workdir = os.path.join(ctx.workdir, "g%d" % id(g)); os.makedirs(sub.workdir, exist_ok=True)
         sub.findings = ctx.findings
         tracev.validate(sub, "TraceMtEncoder", g["runs"],
-                        lambda label, e, i: ("reinit-busy:" if label.startswith("reinit-busy:") else "") +
-                        "trace:%s:%s" % (label.replace("reinit-busy:", "").split(":")[0], e.get("e")),
+                        lambda label, e, i: ("reinit-busy:" if (label.startswith("reinit-raced:") or
+                                                                 (label.startswith("reinit-busy:") and e.get("e") == "Progress")) else "") +
+                        "trace:%s:%s" % (label.replace("reinit-busy:", "").replace("reinit-raced:", "").split(":")[0], e.get("e")),
                         prelude=[cfgline], name="TraceMtEncoder.%s.%d.%d.%d" % (g["inp"], g["nw"], g["bs"], g["timeout"]), maxl=True)
         return g, sub
     with cf.ThreadPoolExecutor(5) as ex:
